@@ -334,7 +334,9 @@ class PrioritizedReplayBuffer(ReplayBuffer):
         :param priority: New priority value
         :type priority: float
         """
-        assert 0 <= idx < self.max_size
+        # only a slot that holds a transition can carry a priority: a positive priority
+        # on an empty slot would make `sample` return an index that was never stored
+        assert 0 <= idx < self.size
 
         # Apply alpha to priority
         priority_alpha = priority**self.alpha
